@@ -1215,6 +1215,14 @@ pub fn c12_strategy() -> impl Strategy<Value = C12Case> {
                     tls[last].timing = t;
                 }
             }
+            // rarely a component whose cycle is so long that cycle x (repeats+1) leaves the f32 range: its
+            // own duration() then reads infinite although its repeat count is finite - the merged
+            // repeat() must still be the largest component repeat
+            if !tls.is_empty() && perm[3] % 16 == 0 {
+                let i = perm[2] as usize % tls.len();
+                tls[i].timing.cycle = [2.0e38f32, 3.0e38, 1.0e30, 1.0e35][(perm[1] % 4) as usize];
+                tls[i].timing.repeat = [Rep::Times(1), Rep::Times(3), Rep::Times(u32::MAX), Rep::None][(perm[0] % 4) as usize];
+            }
             if disjoint {
                 // make the property sets pairwise disjoint
                 let mut used = 0u8;
@@ -1254,6 +1262,9 @@ pub fn c12_judge(c: &C12Case, obs: &mut Obs) -> Result<(), String> {
     obs.label_if(2, n >= 2);
     obs.label_if(5, c.start.is_some());
     let mut merged = MergedTimeline::of(comps.iter().cloned());
+    // a copy taken before start_with stays alive next to the original (templates are cloned into
+    // animators): start_with on the original must still reach all of ITS components
+    let _copy_kept_alive = if c.perm[1] % 2 == 0 { Some(merged.clone()) } else { None };
     let mut seq: Vec<PTimeline> = comps.clone();
     if let Some(v) = &c.start {
         let vp = P::from_vals(v);
